@@ -50,3 +50,11 @@ package http
 //@   at call "h.ServeHTTP(ww, r)" requires notBlocked: !reqInterrupted && !reqFailed && logCalls == old(logCalls) && closeCalls == old(closeCalls)
 //@   at call "processResponse(tx, r)" requires afterHandler: handlerCalls == old(handlerCalls) + 1 && logCalls == old(logCalls) && closeCalls == old(closeCalls)
 //@   at call "w.WriteHeader(" requires handlerSkipped: handlerCalls == old(handlerCalls) && logCalls == old(logCalls)
+
+// ---------------------------------------------------------------- ReadFrom (C18): the bytes go THROUGH the interceptor
+// io.Copy is handed a writer that is not the underlying ResponseWriter (a ReadFrom that reached the underlying writer
+// directly would bypass buffering and blocking); what the copy then does is i.Write's contract, chunk by chunk.
+//@ func (*rwInterceptor).ReadFrom props C18,C07
+//@   requires wired: i != nil && !isnil(i.w)
+//@   modifies inferred
+//@   at call "io.Copy(" requires notAroundTheInterceptor: arg(0) != old(i.w)
